@@ -358,12 +358,14 @@ def check_case(case, rec):
             continue
         if molgen.snapshot(y) != molgen.snapshot(x) and (canon_safe(y) != canon_safe(x) or in_gap(x)) and not in_gap(x):
             sig = 'vicinal-N-oxides' if vicinal_n_oxides(x) else ('two-donor-cation' if two_donor_cation(x) else op)
-            if sig == op and op in ('standardize', 'canonicalize', 'canonicalize_kekule') and grafted:
+            if sig == op and op in ('standardize', 'canonicalize', 'canonicalize_kekule') and (grafted or fired_rules(m) not in ('', '?')):
+                # (a group rule fired in the first call: grafted spelling, or a generated molecule that happens to contain one)
                 # standardize() runs the resonance fixer first and the group rules second: a documented mis-spelling whose rewritten
                 # form is a cation/anion pair in conjugation is only neutralised by the fixer of the next call
-                probe = x.copy()
+                probe, probe0 = x.copy(), m.copy()
                 try:
-                    if probe.fix_resonance():
+                    # the input itself must be stable under the fixer (for generated molecules): the instability is the rule's product
+                    if (grafted or not probe0.fix_resonance()) and probe.fix_resonance():
                         sig = 'resonance-after-rules'
                 except Exception:
                     pass
